@@ -5,6 +5,7 @@ import (
 	"fmt"
 	"os"
 	"runtime"
+	"strings"
 	"time"
 )
 
@@ -77,8 +78,9 @@ type part struct {
 
 // multiBfsCheck runs several explorations for one property and merges their statistics
 // into one evidence file.
-func multiBfsCheck(prop string, parts []part, extraAssume []string) {
-	Registry[prop] = &Check{
+func multiBfsCheck(regName string, parts []part, extraAssume []string) {
+	prop := strings.TrimSuffix(regName, "t")
+	Registry[regName] = &Check{
 		Run: func(tier string, seed int64) int {
 			kf := LoadFindings()
 			var total *Stats
@@ -330,6 +332,36 @@ func init() {
 				fmt.Printf("replay of %s: %s\n", rf.Property, v.String())
 				fmt.Printf("VIOLATION property=%s replay=%s\n", rf.Property, os.Getenv("VERIF_REPLAY_PATH"))
 				return 1
+			},
+		}
+	}
+	{
+		mk := func(tier string) []part {
+			return []part{
+				{"store-reputation", func() Driver { return NewRepDriver(tier) }, 3, 4, 30, 150},
+				{"store-audit", func() Driver { return NewAudDriver(tier) }, 3, 4, 30, 150},
+				{"store-estimations", func() Driver { return NewEstDriver(tier) }, 4, 6, 30, 150},
+				{"store-neofsid", func() Driver { return NewIDDriver() }, 4, 6, 30, 150},
+				{"store-config", func() Driver { return NewCfgDriver() }, 3, 4, 30, 150},
+			}
+		}
+		multiBfsCheck("C20", mk("quick"), nil)
+		q, t := Registry["C20"], mk("thorough")
+		multiBfsCheck("C20t", t, nil)
+		th := Registry["C20t"]
+		delete(Registry, "C20t")
+		Registry["C20"] = &Check{
+			Run: func(tier string, seed int64) int {
+				if tier == "thorough" {
+					return th.Run(tier, seed)
+				}
+				return q.Run(tier, seed)
+			},
+			Replay: func(rf *ReplayFile) int {
+				if t, _ := rf.Params["tier"].(string); t == "thorough" {
+					return th.Replay(rf)
+				}
+				return q.Replay(rf)
 			},
 		}
 	}
